@@ -24,11 +24,15 @@ Reading of the property (what the oracle demands; chosen so that minimally repai
   Independently of the loaded measure structure every stored note is also demanded at the same distance
   IN QUARTERS from the loaded origin (the first stored note if it is not after beat 0, else beat 0) and
   with the same duration in quarters, on integer division times.
+  The reader's divisions are the lcm of the written offset/duration denominators; the distance of a bar line
+  from the loaded origin is written nowhere as a fraction (only the four-decimal beat times tell it), so the
+  score clauses are demanded when every bar line of a stored note lies on that grid (e.g. not for a pickup
+  of two triplet eighths whose aligned notes are all quarters).
 * "measures at the same positions": for every saved measure holding a stored note whose start is not
   before the first stored note, the loaded part has a measure starting at the same beat.  The format
   stores no measure for a bar without a stored note (the reader extends the previous measure over it, so
   a pickup followed by such a bar is no longer recognisable): the clauses that compare BEAT positions and
-  measures are applied only when every bar from the first to the last stored note holds a stored note;
+  measures are applied only when every bar from the first to the last stored note holds a stored note (and the stored notes are not all in the pickup: an incomplete final bar);
   the quarter-position clauses always.
 * "time and key signatures at the start of the bar where they were written": every saved signature that
   differs from the one before it is demanded, with the same content, at the same distance in quarters from
@@ -379,7 +383,7 @@ def cases(rng, tier):
     for fn in sorted(os.listdir(FIXDIR)) if os.path.isdir(FIXDIR) else []:
         if fn.endswith(".match"):
             yield {"k": "fixture", "file": fn}
-    n = {"quick": 400, "thorough": 9000, "search": 3000}.get(tier, 400)
+    n = {"quick": 400, "thorough": 15000, "search": 3000}.get(tier, 400)
     made = 0
     while made < n:
         sub = rng.randint(0, 2**31)
@@ -579,6 +583,8 @@ def oracle_rt(desc, res):
     stored = [a["score_id"] for a in desc["align"] if a["label"] in ("match", "deletion")]
     if not stored:
         return F
+    if not grid_ok(desc):
+        return F
     F += oracle_quarters(desc, res, stored)
     if not bars_covered(desc):
         return F
@@ -763,12 +769,61 @@ def oracle_quarters(desc, res, stored):
     return F
 
 
+def grid_ok(desc):
+    """The reader's divisions are the lcm of the written offset/duration denominators (times beat_type/4);
+    the distance of a bar line from the loaded origin is not written as a fraction at all (only the
+    four-decimal beat times tell it).  The score clauses are demanded when every bar line of a stored note
+    lies on that grid - the hypothesis `hgrid` of the position theorems."""
+    pd = desc["part"]
+    divs = pd["divs"]
+    byid = {n["id"]: n for n in pd["notes"]}
+    stored = [byid[a["score_id"]] for a in desc["align"] if a["label"] in ("match", "deletion")]
+    if not stored:
+        return True
+    ts = sorted(pd["ts"])
+    meas = sorted(pd["measures"])
+
+    def den_at(t):
+        return [x for x in ts if x[0] <= t][-1][2] if any(x[0] <= t for x in ts) else ts[0][2]
+
+    def tied_dur(n):
+        du = n["dur"]
+        while n.get("tie"):
+            n = byid[n["tie"]]
+            du += n["dur"]
+        return du
+
+    D = 1
+    for n in stored:
+        ms = max(m[0] for m in meas if m[0] <= n["t"])
+        den = den_at(n["t"])
+        rel = n["t"] - ms
+        off = Fraction((rel * den) % (4 * divs), 4 * divs * den)
+        du = Fraction(tied_dur(n), 4 * divs)
+        k = max(den // 4, 1)
+        for f in (off, du):
+            D = D * (k * f.denominator) // math.gcd(D, k * f.denominator)
+    o_first = min(n["t"] for n in stored)
+    beat0 = meas[0][1] if beats_exact(pd, meas[0][0]) < 0 else meas[0][0]
+    o_ref = o_first if beats_exact(pd, o_first) <= 0 else beat0
+    for n in stored:
+        ms = max(m[0] for m in meas if m[0] <= n["t"])
+        if ((ms - o_ref) * D) % divs != 0:
+            return False
+    return True
+
+
 def bars_covered(desc):
     """every bar from the first to the last stored note holds the onset of a stored note"""
     pd = desc["part"]
     byid = {n["id"]: n for n in pd["notes"]}
     ts = sorted(byid[a["score_id"]]["t"] for a in desc["align"] if a["label"] in ("match", "deletion"))
     if not ts:
+        return False
+    meas = sorted(pd["measures"])
+    if beats_exact(pd, meas[0][0]) < 0 and ts[-1] < meas[0][1]:
+        # every stored note lies in the pickup: what is stored is one incomplete final bar, which the format
+        # cannot tell from a complete one (the property's "complete final measure")
         return False
     for (ms, me, _) in pd["measures"]:
         if me <= ts[0] or ms > ts[-1]:
@@ -1068,14 +1123,25 @@ def corr_dec(text, res, ev):
     divs = int(lpart._quarter_durations[0])
     meas = sorted(lpart.iter_all(S.Measure), key=lambda m: m.start.t)
     names = sorted(set(int(x.Measure) for x in sn))
+    # the reader's own measures are named after the bars of the file and form a chain (each ends where the
+    # next begins); measures filled in by add_measures are named by a counter and may carry the same names
+    def chain(i, prev_end):
+        if i == len(names):
+            return []
+        for m in sorted((m for m in meas if m.name == str(names[i])), key=lambda m: -m.start.t):
+            if prev_end is None or m.start.t == prev_end:
+                rest = chain(i + 1, m.end.t)
+                if rest is not None:
+                    return [m] + rest
+        return None
+
+    ch = chain(0, None)
     bl = []
     last_end = None
-    for b in names:
-        c = [m for m in meas if m.name == str(b)]
-        if c:
-            m = max(c, key=lambda m: m.start.t)
-            bl.append(W.f_tuple(str(b), W.f_rat(W.as_fraction(m.start.t))))
-            last_end = m.end.t
+    for i, b in enumerate(names):
+        if ch is not None:
+            bl.append(W.f_tuple(str(b), W.f_rat(W.as_fraction(ch[i].start.t))))
+            last_end = ch[i].end.t
         else:
             bl.append(W.f_tuple(str(b), "-"))
     tsp = sorted((W.as_fraction(o.start.t), int(o.beats), int(o.beat_type)) for o in lpart.iter_all(S.TimeSignature))
@@ -1269,6 +1335,7 @@ def evaluate_(desc):
             feats.append("pickup")
         ev.info["feats"] = feats
         ev.info["covered"] = bars_covered(desc)
+        ev.info["grid"] = grid_ok(desc)
         ev.key = "rt:%s:%d" % (desc.get("sub"), len(desc["align"])) if "text" in res else None
         return ev
     if k == "fixture":
@@ -1276,6 +1343,43 @@ def evaluate_(desc):
     if k == "dedup":
         return eval_dedup(desc, ev)
     return ev
+
+
+def shrink(desc):
+    """smaller candidates of a round-trip case: no controls, fewer alignment entries (with their performed
+    notes), fewer unaligned score notes"""
+    import copy
+
+    if desc.get("k") == "dedup":
+        yield desc["base"]
+        return
+    if desc.get("k") != "rt":
+        return
+    if desc["perf"]["controls"]:
+        d = copy.deepcopy(desc)
+        d["perf"]["controls"] = []
+        yield d
+    al = desc["align"]
+    step = max(1, len(al) // 4)
+    for i in range(0, len(al), step):
+        d = copy.deepcopy(desc)
+        gone = d["align"][i:i + step]
+        d["align"] = d["align"][:i] + d["align"][i + step:]
+        pids = set(a.get("performance_id") for a in gone)
+        d["perf"]["notes"] = [n for n in d["perf"]["notes"] if n["id"] not in pids]
+        if d["align"] and domain_ok(d):
+            yield d
+    used = set(a.get("score_id") for a in al)
+    tied = set()
+    for n in desc["part"]["notes"]:
+        if n.get("tie"):
+            tied.add(n["id"])
+            tied.add(n["tie"])
+    loose = [n["id"] for n in desc["part"]["notes"] if n["id"] not in used and n["id"] not in tied and n["kind"] != "rest"]
+    if loose:
+        d = copy.deepcopy(desc)
+        d["part"]["notes"] = [n for n in d["part"]["notes"] if n["id"] not in loose]
+        yield d
 
 
 def distribution(descs, results):
@@ -1289,6 +1393,7 @@ def distribution(descs, results):
             c["feat:" + f] += 1
         if d["k"] == "rt":
             c["covered" if info.get("covered") else "uncovered"] += 1
+            c["grid_ok" if info.get("grid") else "grid_off"] += 1
             c["order_safe" if info.get("order_safe") else "order_unsafe"] += 1
             c["divs:%d" % d["part"]["divs"]] += 1
             for a in d["align"]:
